@@ -4,7 +4,8 @@ Import ListNotations.
 Local Open Scope Z_scope.
 
 (* C07: parse(export) recovers IVT, boot data, DCD, XMCD and application (with the zero gap up to the CSF) of every
-   image the builder produces, for every configuration whose segments do not collide (layout_wf) and whose application
+   image the builder produces (non-empty application at or after IVT+0x44, well-formed DCD / XMCD objects: layout_wf;
+   that the segments do not collide follows from the successful build: segments_do_not_collide) whose application
    is found by the reset-vector search of AppHabSegment.parse.  The CSF contents are covered by csf_offsets_resolve /
    cms_obligations_ranges and by the correspondence check. *)
 Theorem hab_layout_roundtrip :
@@ -16,5 +17,5 @@ Theorem hab_layout_roundtrip :
   parse_xmcd (b_image b) = Ok (q_xm_b q) /\
   parse_app (b_image b) (c_ivt c) = Ok (c_app_off c, b_app b ++ gap_tail c b) /\
   (c_enc c = false -> b_app b = c_app_bin c).
-Proof. exact layout_roundtrip. Qed.
+Proof. exact layout_roundtrip'. Qed.
 Print Assumptions hab_layout_roundtrip.
